@@ -24,3 +24,13 @@ pub fn is_valid_implementation_field_type(
         impl_field_type,
     )
 }
+
+/// `DepthCounter`/`DepthGuard` driven over a nesting shape; `(value, high, limit reached)`.
+pub fn depth_walk(limit: usize, start: usize, shape: &[u8]) -> (usize, usize, bool) {
+    crate::validation::verif::depth_walk(limit, start, shape)
+}
+
+/// `DiagnosticList::sort` on diagnostics with the given `(file id, offset)` keys.
+pub fn sort_diagnostics(keys: &[Option<(u64, u32)>]) -> Vec<usize> {
+    crate::validation::verif::sort_diagnostics(keys)
+}
